@@ -118,6 +118,25 @@ Fixpoint bits_to_bytes (fuel : nat) (s : list bool) : list Z :=
   end.
 Definition pack_bits (s : list bool) : list Z := bits_to_bytes (S (length s)) s.
 
+(* ------------------------------------------------------------------ the XTC format standard *)
+(* Constants of the XTC file format (GROMACS xdrfile library): the table of "magic" integers, the first index
+   used, the atom count up to which coordinates are stored as raw floats, the precision mdtraj writes with and
+   the frame magic number.  They are NOT taken from /repo: the Gallina decoder is the independent reader of the
+   property.  The values found in /repo's sources (the src_xtc constants of Gen/CodecTables.v) are obliged to coincide with
+   them by Props/C01.v:xtc_format_standard, so the model is the model of the code exactly when that holds. *)
+Definition xtc_magicints : list Z := [
+  0; 0; 0; 0; 0; 0; 0; 0; 0; 8; 10; 12; 16; 20; 25; 32; 40; 50; 64;
+  80; 101; 128; 161; 203; 256; 322; 406; 512; 645; 812; 1024; 1290;
+  1625; 2048; 2580; 3250; 4096; 5060; 6501; 8192; 10321; 13003;
+  16384; 20642; 26007; 32768; 41285; 52015; 65536; 82570; 104031;
+  131072; 165140; 208063; 262144; 330280; 416127; 524287; 660561;
+  832255; 1048576; 1321122; 1664510; 2097152; 2642245; 3329021;
+  4194304; 5284491; 6658042; 8388607; 10568983; 13316085; 16777216].
+Definition xtc_firstidx : Z := 9.
+Definition xtc_prec : Z := 1000.
+Definition xtc_raw_max_atoms : Z := 9.
+Definition xtc_magic : Z := 1995.
+
 (* ------------------------------------------------------------------ sizes *)
 Definition magic (i : Z) : Z := nth (Z.to_nat i) xtc_magicints 0.
 Definition lastidx : Z := Z.of_nat (length xtc_magicints).
@@ -502,7 +521,7 @@ Definition triple_of (l : list Z) : triple := match l with [a; b; c] => (a, b, c
 Definition read_frame (l : list Z) : option (xtc_frame * list Z) :=
   match be32s 4 l with
   | Some ([mg; natoms; step; time], r1) =>
-      if negb (mg =? 1995) then None else
+      if negb (mg =? xtc_magic) then None else
       match be32s 9 r1 with
       | Some (box, r2) =>
           match be32 r2 with
